@@ -615,8 +615,8 @@ Section Counter.
     destruct st as [n fl]. cbn. repeat f_equal. lia.
   Qed.
 
-  Lemma within_limit_admitted st q : infl_n st + 1 <= L ->
-    infl_step L st (InflArrive q) = Some (mkInfl (S (infl_n st)) (q :: infl_fl st), [InflAdmitted q]).
+  Lemma within_limit_accepted st q : infl_n st + 1 <= L ->
+    infl_step L st (InflArrive q) = Some (mkInfl (S (infl_n st)) (q :: infl_fl st), [InflAccepted q]).
   Proof.
     intros H. unfold infl_step. assert (L <? S (infl_n st) = false) as -> by (apply Nat.ltb_ge; lia). reflexivity.
   Qed.
